@@ -212,6 +212,17 @@ def run_history(ctx, deck, seed, nops, model_every=8):
     rng = random.Random(f"c03-{seed}")
     label = deck.name if deck else "default-template"
     prs = Presentation(str(deck)) if deck else Presentation()
+    if rng.random() < 0.3:
+        # the same deck with optional elements / attributes removed at random (every part still schema-valid): operations
+        # meet ABSENT elements where the corpus always has them
+        from harness.props.c09 import build_deck
+        from harness.props.c12 import thin
+        b = io.BytesIO()
+        (prs if (deck and rng.random() < 0.5) else build_deck()).save(b)
+        td, nrem = thin(b.getvalue(), rng)
+        prs = Presentation(io.BytesIO(td))
+        label += f"(thinned variant, {nrem} removed)" if deck else f"generated-deck(thinned, {nrem} removed)"
+        ctx.count("thinned-start-decks")
     pkg = prs.part.package
     w = Watch(ctx, label)
     model_lines = []
@@ -349,7 +360,11 @@ def schema_model_tie(ctx, n_mut):
         ctx.count(f"tie:lxml={'valid' if m['lxml'] else 'invalid'},model={'valid' if model_ok else 'invalid'}")
         if model_ok == m["lxml"]:
             continue
-        if m["lxml"] is False and ("wildcard" in (m["lxml_error"] or "") or "{*}*" in (m["lxml_error"] or "")):
+        mut_target = (m["mutation"] or "").split(" ")[-1]
+        if m["lxml"] is False and ("wildcard" in (m["lxml_error"] or "") or "{*}*" in (m["lxml_error"] or "")
+                                   or mut_target in ("ext", "graphicData")):
+            # xsd:any with namespace="##other" / processContents="strict": which foreign children a wildcard admits is
+            # not modelled (the model treats wildcard content as open)
             ctx.count("tie:wildcard-strictness-not-modelled")
             continue
         ctx.disagree("schema-model", m, "valid" if m["lxml"] else "invalid: " + (m["lxml_error"] or ""), r[:300])
